@@ -7,26 +7,40 @@ import threading
 LEVEL = "exploration"
 RULE = ("TLC enumerates the case analysis of FieldRules.tla as a state space (FieldRulesGen.tla): one state per vector = "
         "source (JSON/YAML/TOML bytes, typed map, form, path, header, JSON body, conf loaders) x wrapper (flat, nested, "
-        "*nested, slice element, map element) x type (1-2 fields: kind x optional/optional=dep/optional=!dep x default "
-        "in/out of range x range with open/closed/unbounded/fractional ends x options x string x pointer) x input class "
-        "per field (absent, null, below/at/inside/at/above the range ends, in/out of options, numeric string, wrong type, "
-        "overflow, empty) x extra keys. Each vector is built with reflect.StructOf (tags included), rendered for its source "
-        "and executed on the real unmarshaller twice per trace in different orders (plus a globally shuffled process); "
-        "TLC validates every outcome (accepted?, panicked?, resulting values) against Judge and against the first outcome "
-        "of the same vector. distinct = distinct vectors executed (quick ~28k: families core and dep complete, sources 50% and wrappers 34% sampled by seed; thorough ~354k: five families complete).")
+        "*nested, slice element, map element) x type (1-2 fields: kind - every integer width, floats, string, bool, []string, "
+        "[]int - x optional/optional=dep/optional=!dep x default in/out of range x range with open/closed/unbounded/fractional "
+        "ends x options x string x pointer) x input class per field (absent, null, below/at/inside/at/above the range ends, "
+        "below/at/above the ends of the kind's width, in/out of options, numeric string, wrong type, overflow, empty, lists) "
+        "x extra keys x spelling of the document keys (conf: capitalised) x map keys (spelled like a field of the element / "
+        "the map field). Each vector is built with reflect.StructOf (tags included), rendered for its source and executed on "
+        "the real unmarshaller twice per trace in different orders (plus a globally shuffled process); after every accepted "
+        "call the driver overwrites everything reachable from its target in place. TLC validates every outcome (accepted?, "
+        "panicked?, resulting values, resulting map keys) against Judge and against the first outcome of the same vector. "
+        "Sequences of calls: TLC generates scripts (unmarshal and keep / write into a held target / forget) from the memory "
+        "model FieldRulesAlias.tla, one per reachable memory state; they are replayed on groups of vectors of one struct type "
+        "and every held target is re-read after every step (TargetsAreIsolated). distinct = distinct vectors executed "
+        "(quick ~33k: families core, dep, widths complete, the others sampled by seed; thorough ~480k: eight families complete).")
 
 FAM = "mapping"
 PKG = "rest/httpx"
-DRV = ["zz_verif_rules_test.go"]
+DRV = ["zz_verif_rules_test.go", "zz_verif_c08_alias_test.go"]
 TRACE = ("FieldRulesTrace", "FieldRulesTrace.cfg")
 KF_HEADER = "KF_HeaderNotDepCanonical"
 
 # (cfg, label, fraction of the enumerated vectors executed)
 QUICK = [("FieldRulesGenCoreQ.cfg", "core", 1.0), ("FieldRulesGenDepQ.cfg", "dep", 1.0),
-         ("FieldRulesGenSrcQ.cfg", "sources", 0.5), ("FieldRulesGenWrapQ.cfg", "wrappers", 0.34)]
+         ("FieldRulesGenSrcQ.cfg", "sources", 0.4), ("FieldRulesGenWrapQ.cfg", "wrappers", 0.25),
+         ("FieldRulesGenWidthQ.cfg", "widths", 1.0), ("FieldRulesGenKeysQ.cfg", "keys", 0.4),
+         ("FieldRulesGenRefQ.cfg", "refs", 0.35)]
 THOROUGH = [("FieldRulesGenCoreT.cfg", "core", 1.0), ("FieldRulesGenDepT.cfg", "dep", 1.0),
             ("FieldRulesGenSrcT.cfg", "sources", 1.0), ("FieldRulesGenSrc2T.cfg", "sources2", 1.0),
-            ("FieldRulesGenWrapT.cfg", "wrappers", 1.0)]
+            ("FieldRulesGenWrapT.cfg", "wrappers", 1.0),
+            ("FieldRulesGenWidthT.cfg", "widths", 1.0), ("FieldRulesGenKeysT.cfg", "keys", 1.0),
+            ("FieldRulesGenRefT.cfg", "refs", 1.0)]
+# sequences of calls (FieldRulesAlias.tla): family whose vectors are grouped by struct type, scripts per group,
+# fraction of the groups executed
+ALIAS_FAMILY = "refs"
+ALIAS = {"quick": ("FieldRulesAliasGenQ.cfg", 2, 0.5), "thorough": ("FieldRulesAliasGenT.cfg", 4, 0.3)}
 
 
 def _key(v):
@@ -54,6 +68,15 @@ def check(run):
         "optional=!dep are outside the statement: acceptance and rejection are both allowed, clauses (a)-(c) still bind "
         "the resulting values",
         "reflect.StructOf types; the tag option order alternates with the vector id (the tag grammar is order-free)",
+        "a number supplied for a numeric field and accepted must be held exactly (no wrap-around, no rounding): numbers "
+        "outside the width of an 8/16-bit kind can only be rejected; the ends of the 32/64-bit kinds are not reachable "
+        "(TLC integers and trace integers are 32 bits wide, numbers travel doubled)",
+        "lists ([]string, []int) travel as count + texts joined by ','; nil and empty slices are both the empty list; "
+        "whether a required list may be absent is left open (the statement speaks of scalar fields)",
+        "capitalised document keys are legal input for the conf loaders only (case-insensitive matching); extra keys and "
+        "map keys are data and never respelled; the resulting map must hold exactly the supplied keys",
+        "a target belongs to its caller: the driver writes into targets in place; nothing a caller does with its target "
+        "may change what another call delivers or what another held target contains",
     ]
     _locked_tmp(run)
     run._spec_copy(FAM)
@@ -71,10 +94,31 @@ def check(run):
         lambda: run.model_check(FAM, "FieldRulesImpl", "FieldRulesImplBug.cfg", workers=1, expect="violation",
                                 note="toOptionsWithContext rebuilding the options without Range (pre-fix) violates InvSoundness"),
     ]
+    # memory model of list filling (FieldRulesAlias): quick checks it at the bound of the script generation
+    # (FieldRulesAliasGenQ.cfg carries every invariant), thorough at a larger bound plus the counterexample
     if thorough:
-        jobs.append(lambda: run.model_check(FAM, "FieldRulesImpl", "FieldRulesImplBug2.cfg", workers=1, expect="violation",
-                                            note="'!dep' canonicalised with its prefix (header source) violates InvCompleteness"))
+        jobs += [
+            lambda: run.model_check(FAM, "FieldRulesAlias", "FieldRulesAliasMC.cfg", workers=w,
+                                    note="memory model of list filling: a new array per call keeps targets isolated "
+                                         "(exact values, history independence, held targets change only by their holder)"),
+            lambda: run.model_check(FAM, "FieldRulesAlias", "FieldRulesAliasBug.cfg", workers=1, expect="violation",
+                                    note="handing out the cached parsed default itself violates InvIsolated / InvValues"),
+            lambda: run.model_check(FAM, "FieldRulesImpl", "FieldRulesImplMC2.cfg", workers=w,
+                                    note="Layer I on integer widths, list fields, key spellings (conf) and map keys"),
+            lambda: run.model_check(FAM, "FieldRulesImpl", "FieldRulesImplBug2.cfg", workers=1, expect="violation",
+                                    note="'!dep' canonicalised with its prefix (header source) violates InvCompleteness"),
+            lambda: run.model_check(FAM, "FieldRulesImpl", "FieldRulesImplBug3.cfg", workers=1, expect="violation",
+                                    note="8/16-bit kinds parsed with bitSize 32 and truncated violate InvValues"),
+            lambda: run.model_check(FAM, "FieldRulesImpl", "FieldRulesImplBug4.cfg", workers=1, expect="violation",
+                                    note="conf describing map[string]Struct by the element's field table violates "
+                                         "InvCompleteness / InvValues (MapKeysVerbatim)"),
+        ]
     gens = {}
+    scripts = []
+
+    def gen_scripts():
+        scripts.extend(run.generate(FAM, "FieldRulesAlias", ALIAS[run.tier][0], workers=1))
+    jobs.append(gen_scripts)
 
     def gen(cfg, label):
         gens[label] = run.generate(FAM, "FieldRulesGen", cfg, workers=w)
@@ -89,6 +133,7 @@ def check(run):
     sources = {}
     pool = []
     batches = []
+    alias_beh = []
     for cfg, label, frac in fams:
         beh = gens[label]
         if frac < 1.0:
@@ -99,6 +144,8 @@ def check(run):
             sources[v["src"]] = sources.get(v["src"], 0) + 1
         pool += rnd.sample(beh, max(1, len(beh) // (6 if thorough else 4)))
         batches.append((label, beh))
+        if label == ALIAS_FAMILY:
+            alias_beh = beh
     if not thorough:                    # one driver process for all families
         batches = [("+".join(b[0] for b in batches), [v for b in batches for v in b[1]])]
     if any(f.get("status") == "open" and f.get("deviation") == KF_HEADER for f in run.findings):
@@ -124,17 +171,48 @@ def check(run):
                        env={"VERIF_RULES_MODE": "shuffle", "VERIF_RULES_IDBASE": idbase})
     run.evaluations += 2 * len(pool)
     run.validate(FAM, TRACE[0], TRACE[1], tr, label="shuffled", split=700)
+    idbase += len(pool)
+    # sequences of calls: TLC-generated scripts (keep / write in place / forget) on groups of vectors of one type
+    _, per_group, gfrac = ALIAS[run.tier]
+    ops = [s["ops"] for s in scripts]
+    # a script that is a proper prefix of another one adds nothing
+    ops = [o for o in ops if not any(len(p) > len(o) and p[:len(o)] == o for p in ops)]
+    groups = {}
+    for v in alias_beh:
+        k = json.dumps([v["src"], v["wrap"], v["f"], v["xk"], v["ksp"], v["mk"]], sort_keys=True)
+        groups.setdefault(k, []).append(v)
+    keys = sorted(groups)
+    if gfrac < 1.0:
+        keys = rnd.sample(keys, max(1, int(len(keys) * gfrac)))
+    inp = [{"kind": "script", "ops": o} for o in ops]
+    nvec = 0
+    for k in keys:
+        g = groups[k]
+        # member 1 = the input with most absent fields (defaults get filled), member 2 = the one with most supplied
+        g.sort(key=lambda v: (-sum(1 for x in v["in"] if x["t"] == "absent"), json.dumps(v["in"], sort_keys=True)))
+        g = [g[0], g[-1]] + g[1:-1] if len(g) > 2 else g
+        chosen = rnd.sample(range(len(ops)), min(per_group, len(ops)))
+        inp.append({"kind": "group", "vecs": g, "scripts": chosen})
+        nvec += len(g)
+        run.evaluations += sum(sum(1 for o in ops[c] if o[0] == "u") for c in chosen)
+    tr = run.go_driver(PKG, DRV, "TestVerifRulesAlias$", inp=inp, timeout=900, env={"VERIF_RULES_IDBASE": idbase})
+    run.validate(FAM, TRACE[0], TRACE[1], tr, label="sequences", split=700)
+    run.extra["alias_scripts"] = len(ops)
+    run.extra["alias_groups"] = len(keys)
     run.extra["vector_classes"] = classes
     run.extra["vectors_by_source"] = sources
 
 
 LEVEL_TEXT = ("Exploration: the constraint semantics of the statement are a TLA+ specification (FieldRules.tla); TLC enumerates "
-              "the case analysis exhaustively within the declared families (quick ~28k, thorough ~354k vectors), every vector is "
-              "executed on the real unmarshallers through every public entry point and TLC judges every recorded outcome. "
+              "the case analysis exhaustively within the declared families (quick ~33k, thorough ~480k vectors), every vector is "
+              "executed on the real unmarshallers through every public entry point and TLC judges every recorded outcome; "
+              "sequences of calls with callers writing into their targets follow TLC-generated scripts. "
               "Design level: TLC checks that the specification is implementable and non-contradictory, that a model of the "
-              "implementation's decision procedure satisfies it, and that the pre-fix option rebuilding does not.")
+              "implementation's decision procedure satisfies it, that a memory model of list filling keeps targets isolated, "
+              "and that the pre-fix option rebuilding and three seeded defect classes (shared cached default, wide parse of "
+              "narrow integers, map field described as struct in conf) do not.")
 LEVEL_NOTE = ("Not a proof over all struct types: types have 1-2 scalar fields (plus one wrapper level), values are multiples of "
-              "0.5 around one range/option family, tag grammar corners (escapes, spaces, env=, inherit, custom validators, "
+              "0.5 around one range/option family (plus the ends of the 8/16-bit widths), the ends of 32/64-bit kinds are out of reach, tag grammar corners (escapes, spaces, env=, inherit, custom validators, "
               "embedded structs, time.Duration, arrays of scalars with options) are not enumerated. Trusted: TLC/SANY, the Go "
               "toolchain, the driver's rendering of inputs and read-back of results.")
 TECHNIQUE = ("TLA+ specification of the statement (FieldRules), TLC-enumerated vectors replayed on the real code, TLC trace "
